@@ -197,6 +197,11 @@ def run_quiet(prop, scenario):
                     res.faults['cohosted_twin_object'] += 1
                 if env.get('failed_eval') is not None and _M.FAILED_USES[0]:
                     res.faults['object_failed_on_a_damaged_log_before'] += 1
+                for k_, name_ in (('reuse_buffers', 'caller_refills_its_buffers_in_place'), ('idem_config', 'same_configuration_issued_again_mid_stream'),
+                                  ('explained_before', 'object_explained_another_log_before'), ('reconf', 'object_used_under_another_sampling_period_before'),
+                                  ('surplus_named', 'data_set_has_columns_named_like_assertions')):
+                    if _M.ENV_FIRED.get(k_):
+                        res.faults[name_] += 1
             res.cpu_s = time.process_time() - cpu0
             return res
     except RunTimeout:
@@ -249,6 +254,18 @@ def _draw_env(prop, rng, scenario):
             env['cohost'] = rng.randrange(1 << 30)
         if rng.random() < 0.12 and 'discrete_units' not in getattr(prop, 'ENV_OPT_OUT', ()):
             env['discrete_units'] = rng.randrange(1 << 30)
+        # (round k; drawn last, so that everything drawn before is unchanged)
+        out = getattr(prop, 'ENV_OPT_OUT', ())
+        if rng.random() < 0.12 and 'reuse_buffers' not in out:
+            env['reuse_buffers'] = True
+        if rng.random() < 0.1 and 'idem_config' not in out:
+            env['idem_config'] = rng.randrange(1 << 30)
+        if rng.random() < 0.08 and 'explained_before' not in out:
+            env['explained_before'] = rng.randrange(1 << 30)
+        if rng.random() < 0.08 and 'reconf' not in out:
+            env['reconf'] = rng.randrange(1 << 30)
+        if rng.random() < 0.08 and 'surplus_named' not in out:
+            env['surplus_named'] = rng.randrange(1 << 30)
         if env:
             scenario['_env'] = env
 
